@@ -190,8 +190,9 @@ ADDED = {
     'C05': 'Also: TDS.init keeps exactly the event schedule built by store_switch_times; GENBase.v_numeric switches off exactly the '
            'static generators of in-service machines; native replays for test_init and v_numeric.'
            ' Round 4: Model.solve_iter (every device position solved exactly once) with native replay on iteratively initialised exciters with an offline device.'
-           ' Rounds 5-6: bounded stock case with a voltage compensator, mode sweep over the mode selectors (set in the input data).',
-    'C06': 'Also: System.store_switch_times from its merge loop on (every (time, model) pair scheduled, models sharing a time merged, '
+           ' Rounds 5-6: bounded stock case with a voltage compensator, mode sweep over the mode selectors (set in the input data).'
+           ' Round 9: bounded check that IEEEG1 turbine fractions not adding up to one initialise to an equilibrium.',
+    'C06': 'Round 9: Toggle.v_numeric (first initialisation stores the status of each addressed device, later ones write it back). Also: System.store_switch_times from its merge loop on (every (time, model) pair scheduled, models sharing a time merged, '
            'switch_times strictly increasing for an initially empty schedule; non-empty schedule = known finding F28), TDS.init '
            'schedule frame, TimerParam.is_time (exact equality), Model / System.switch_action (each callback once), Toggle._u_switch, '
            'Fault.apply_fault / clear_fault (exactly the due and enabled devices).'
@@ -233,7 +234,7 @@ ADDED = {
            'Python type of the verdict (TDS.run tests "is False").'
            ' Round 4: getattr-with-default modelled so that the exit-code aggregation of andes.main.run stays decidable; native replay with unloadable case files.'
            ' Rounds 5-6: System.setup (is_setup <=> external parameters linked); bounded dangling-reference case through the command-line entry point.',
-    'C19': 'Also: DeviceFinder.find_or_add with a lookup relation updated by every creation (a helper is created at most once per '
+    'C19': 'Round 9: bounded sweep - every mandatory reference of every model in kundur_full pointed at a missing device must be refused by System.setup. Also: DeviceFinder.find_or_add with a lookup relation updated by every creation (a helper is created at most once per '
            'target) + native replay; bounded exhaustive GroupBase.idx2model (unknown idx => KeyError also with allow_none).'
            ' Rounds 5-6: System.collect_ref link loop; bounded registries built by seeded sequences of additions, targeted generated-name collision.',
     'C20': 'Also: ConfigParser callee contracts (add_section / set / has_section) in _update_config_object (defect F31 fixed); native '
